@@ -50,7 +50,7 @@ def _circuit(rng):
 
 
 def cases(rng, tier):
-    n = {"quick": 1000, "thorough": 25000, "search": 6000}[tier]
+    n = {"quick": 1000, "thorough": 40000, "search": 6000}[tier]
     for _ in range(n):
         p = _circuit(rng)
         yield {"prog": p, "kind": "tracked"}
